@@ -45,6 +45,10 @@ def confirm(rp, resp):
             active = not resp["done"][t][b]
             o.step(st, acts[t][b], active, t)
             picks += 1
+            if active and hasattr(sp, "bookkeeping_concrete") and t + 1 < len(resp["extra"]):
+                wrong = sp.bookkeeping_concrete(resp["extra"][t + 1], resp["masks"][t + 1], o, st, b, n)
+                if wrong:
+                    return True, f"row {b} after step {t}: what the policy is shown does not follow from the selection: {wrong[0]}"
         bad = [k for k, v in st.viol.items() if v]
         if bad:
             return True, f"row {b}: mask-confined selection violates {bad}"
